@@ -157,7 +157,9 @@ class Board:
                 self.count('probe.wakeup')
         pre = light(arm)
         pre_pc = r.pc_store_value()
-        rec = {'tick': self.tick, 'core': ci, 'pre': pre, 'pre_pc': pre_pc, 'exc': None, 'nie': None, 'what': 'step'}
+        self.step_serial = getattr(self, 'step_serial', 0) + 1          # identifies this step for observers (entries taken through the API happen outside any step)
+        self.in_step = True
+        rec = {'tick': self.tick, 'core': ci, 'pre': pre, 'pre_pc': pre_pc, 'exc': None, 'nie': None, 'what': 'step', 'serial': self.step_serial}
         cpsr = pre[1]
         try:
             if core.lines['fiq'] and not (cpsr >> 6) & 1:
@@ -201,6 +203,7 @@ class Board:
             rec['exc'] = (name, site, repr(e)[:160])
             core.dead = True
             self.count('hosterr.%s@%s' % (name, site))
+        self.in_step = False
         rec['post'] = light(arm)
         self.log.update(repr((self.tick, ci, rec['what'], rec['post'], rec['nie'], rec['exc'] and rec['exc'][:2])).encode())
         for o in self.observers:
